@@ -28,6 +28,8 @@ CONSTANTS
                    \*          context is rejected); FALSE = pinned (only operations registered in THIS invocation are known)
   AtomicCallback,  \* BOOLEAN: TRUE = code as fixed (a done-callback's status write, counter update and decision run under one lock);
                    \*          FALSE = pinned original (status write, counter update, should_complete(), scan: separate unprotected steps)
+  ResubmitUnderLock, \* BOOLEAN: FALSE = code as fixed (the timer thread releases TimerScheduler._lock before it resubmits a due branch);
+                   \*          TRUE = pinned original (the lock is held for the whole refresh checkpoint + re-submission)
   ResetFirst       \* BOOLEAN: TRUE = code as it is (the timer thread resets a due branch to PENDING BEFORE the refresh checkpoint);
                    \*          FALSE = probe: reset only after the refresh returned (the branch still looks parked meanwhile)
 
@@ -85,10 +87,11 @@ VARIABLES
   tph,                 \* timer thread: [ph |-> "idle" | "refresh" (about to enqueue the empty checkpoint) | "await" (blocked in it), i |-> branch]
   tphAtSusp,           \* history: tph.ph when the suspension was decided ("none" before; "stale" if decided by a stale scan)
   stale,               \* history: callbacks whose running should_execution_suspend() scan overlapped a timer pop
+  noCb,                \* resubmitted branches whose done-callback the timer thread has not attached yet (submit ... add_done_callback)
   badSusp              \* history: a suspension was decided although the branch statuses at that moment already decided the policy
 
 vars == <<bst, wph, bpos, sub, fout, scanIdx, scanT, scanI, succ, fail, event, suspExc, timers, mpc, mi, reg, pdone, parentSent,
-          items, reason, active, maxActive, decidedAt, outcomeAt, late, known, result, snap, suspSnap, resub, chk, chkLate, tph, tphAtSusp, stale, badSusp>>
+          items, reason, active, maxActive, decidedAt, outcomeAt, late, known, result, snap, suspSnap, resub, chk, chkLate, tph, tphAtSusp, stale, noCb, badSusp>>
 
 Atom(i) == IF bpos[i] <= Len(Script[i]) THEN Script[i][bpos[i]] ELSE "ok"
 
@@ -102,7 +105,7 @@ Init ==
   /\ items = <<>> /\ reason = "none"
   /\ active = 0 /\ maxActive = 0 /\ decidedAt = <<>> /\ outcomeAt = <<>> /\ late = {} /\ known = {} /\ result = "none"
   /\ snap = [i \in Br |-> {}] /\ suspSnap = {} /\ resub = {} /\ chk = {} /\ chkLate = {}
-  /\ tph = [ph |-> "idle", i |-> 0] /\ tphAtSusp = "none" /\ stale = {} /\ badSusp = FALSE
+  /\ tph = [ph |-> "idle", i |-> 0] /\ tphAtSusp = "none" /\ stale = {} /\ noCb = {} /\ badSusp = FALSE
 
 ---------------------------------------------------------------------------
 \* Completion policy (transcription of ExecutionCounters / BatchResult._get_completion_reason)
@@ -123,6 +126,10 @@ Reason(s, f, started) ==
   ELSE "ALL_COMPLETED"
 
 ---------------------------------------------------------------------------
+\* TimerScheduler._lock: pinned original - held by the timer thread from the pop until the resubmission (incl. an inline callback)
+\* is over; fixed code - held only inside the (atomic) pop
+SchedLockHeld == ResubmitUnderLock /\ tph.ph # "idle"
+
 \* main thread
 
 Workers == IF MaxConc = 0 THEN N ELSE MaxConc
@@ -162,7 +169,8 @@ MainCancel ==
                       /\ bst' = [bst EXCEPT ![mi] = "SUSPENDED"]
                  ELSE UNCHANGED <<wph, fout, bst>>
             /\ mi' = mi + 1 /\ UNCHANGED mpc
-       ELSE /\ mpc' = IF suspExc # "none" THEN "RaiseSuspend" ELSE "Build"
+       ELSE /\ ~SchedLockHeld      \* leaving `with TimerScheduler(...)`: shutdown() takes the scheduler lock
+            /\ mpc' = IF suspExc # "none" THEN "RaiseSuspend" ELSE "Build"
             /\ UNCHANGED <<wph, fout, bst, mi>>
   /\ UNCHANGED <<bpos, sub, scanIdx, scanT, scanI, succ, fail, event, suspExc, timers, reg, pdone, parentSent, items, reason,
                  active, maxActive, decidedAt, outcomeAt, late, known, result>>
@@ -204,7 +212,10 @@ MainParentCkpt ==
 ---------------------------------------------------------------------------
 \* workers: branch bodies
 
-BusyWorkers == Cardinality({i \in Br : wph[i] \in {"run", "done", "cbw", "cbd", "scan"}})
+\* (a done-callback occupies the worker that ran the body - unless it has not been attached yet or runs inline in the timer thread)
+BusyWorkers == Cardinality({i \in Br : \/ wph[i] = "run"
+                                       \/ /\ wph[i] \in {"done", "cbw", "cbd", "scan", "sched"}
+                                          /\ i \notin noCb /\ ~(tph.ph = "inline" /\ tph.i = i)})
 
 \* a free worker takes a queued branch
 WorkerTake(i) ==
@@ -321,9 +332,11 @@ SetEvent == /\ event' = TRUE
             /\ outcomeAt' = IF event THEN outcomeAt ELSE [i \in Br |-> Truth(i)]
 
 CbBusy == \E j \in Br : wph[j] \in {"cbw", "cbd", "scan"}
+\* where a done-callback goes when its decision part is over: a timed suspend still has to be put on the timer heap
+AfterCb(i) == IF fout[i] = "tsusp" THEN "sched" ELSE "idle"
 \* first half: status write + counter
 CbWrite(i) ==
-  /\ wph[i] = "done"
+  /\ wph[i] = "done" /\ i \notin noCb
   /\ AtomicCallback => ~CbBusy          \* fixed code: callbacks are serialized by a lock held until the decision is taken
   \* pinned original: exe_state.complete()/fail() makes the status visible BEFORE counters.complete_task()/fail_task() ("cbw")
   /\ CASE fout[i] = "ok" -> /\ bst' = [bst EXCEPT ![i] = "COMPLETED"]
@@ -336,8 +349,9 @@ CbWrite(i) ==
                               /\ UNCHANGED <<succ, timers, known>>
        [] fout[i] = "susp" -> /\ bst' = [bst EXCEPT ![i] = "SUSPENDED"] /\ wph' = [wph EXCEPT ![i] = "cbd"]
                               /\ UNCHANGED <<succ, fail, timers, known>>
-       [] fout[i] = "tsusp" -> /\ bst' = [bst EXCEPT ![i] = "SUSPENDED_T"] /\ timers' = timers \cup {i}
-                               /\ wph' = [wph EXCEPT ![i] = "cbd"] /\ UNCHANGED <<succ, fail, known>>
+       \* (the branch is put on the timer heap by schedule_resume() AFTER the decision, outside the decision lock: CbSchedule)
+       [] fout[i] = "tsusp" -> /\ bst' = [bst EXCEPT ![i] = "SUSPENDED_T"]
+                               /\ wph' = [wph EXCEPT ![i] = "cbd"] /\ UNCHANGED <<succ, fail, timers, known>>
        [] fout[i] = "orphan" -> \* ignored: the branch stays RUNNING, nothing is decided
                                 /\ wph' = [wph EXCEPT ![i] = "idle"] /\ UNCHANGED <<bst, succ, fail, timers, known>>
        [] fout[i] = "bte" ->
@@ -366,7 +380,7 @@ CbCount(i) ==
 CbDecide(i) ==
   /\ wph[i] = "cbd"
   /\ IF ShouldComplete(succ, fail)
-       THEN /\ SetEvent /\ wph' = [wph EXCEPT ![i] = "idle"] /\ UNCHANGED <<scanIdx, scanT, scanI>>
+       THEN /\ SetEvent /\ wph' = [wph EXCEPT ![i] = AfterCb(i)] /\ UNCHANGED <<scanIdx, scanT, scanI>>
        ELSE /\ wph' = [wph EXCEPT ![i] = "scan"] /\ scanIdx' = [scanIdx EXCEPT ![i] = 1]
             /\ scanT' = [scanT EXCEPT ![i] = FALSE] /\ scanI' = [scanI EXCEPT ![i] = FALSE]
             /\ UNCHANGED <<event, decidedAt, outcomeAt>>
@@ -379,12 +393,12 @@ CbScan(i) ==
   /\ IF scanIdx[i] <= N
        THEN LET j == scanIdx[i] IN
             IF bst[j] \in {"PENDING", "RUNNING"}
-              THEN /\ wph' = [wph EXCEPT ![i] = "idle"] /\ UNCHANGED <<scanIdx, scanT, scanI, event, suspExc, decidedAt, outcomeAt>>
+              THEN /\ wph' = [wph EXCEPT ![i] = AfterCb(i)] /\ UNCHANGED <<scanIdx, scanT, scanI, event, suspExc, decidedAt, outcomeAt>>
               ELSE /\ scanIdx' = [scanIdx EXCEPT ![i] = @ + 1]
                    /\ scanT' = [scanT EXCEPT ![i] = @ \/ bst[j] = "SUSPENDED_T"]
                    /\ scanI' = [scanI EXCEPT ![i] = @ \/ bst[j] = "SUSPENDED"]
                    /\ UNCHANGED <<wph, event, suspExc, decidedAt, outcomeAt>>
-       ELSE /\ wph' = [wph EXCEPT ![i] = "idle"]
+       ELSE /\ wph' = [wph EXCEPT ![i] = AfterCb(i)]
             /\ IF scanT[i] \/ scanI[i]
                  THEN /\ suspExc' = (IF scanT[i] THEN "timed" ELSE "indef") /\ SetEvent
                  ELSE UNCHANGED <<suspExc, event, decidedAt, outcomeAt>>
@@ -393,6 +407,13 @@ CbScan(i) ==
                  active, maxActive, late, known, result>>
 
 ---------------------------------------------------------------------------
+\* scheduler.schedule_resume(): the parked branch is put on the timer heap (needs TimerScheduler._lock)
+CbSchedule(i) ==
+  /\ wph[i] = "sched" /\ ~SchedLockHeld
+  /\ timers' = timers \cup {i} /\ wph' = [wph EXCEPT ![i] = "idle"]
+  /\ UNCHANGED <<bst, bpos, sub, fout, scanIdx, scanT, scanI, succ, fail, event, suspExc, mpc, mi, reg, pdone, parentSent, items, reason,
+                 active, maxActive, decidedAt, outcomeAt, late, known, result>>
+
 \* timer thread (TimerScheduler._timer_loop + the resubmitter closure of execute()).  One branch at a time:
 \*   TimerPop     : a due branch is popped from the heap; reset_to_pending() (code as it is: BEFORE the refresh)
 \*   TimerPut     : the empty "state refresh" checkpoint is enqueued (synchronous: the thread blocks in it)
@@ -408,35 +429,49 @@ TimerPop(i) ==
   /\ tph' = [ph |-> "refresh", i |-> i]
   /\ IF ResetFirst THEN bst' = [bst EXCEPT ![i] = "PENDING"] /\ ResetBranch(i, "PENDING")
                    ELSE UNCHANGED <<bst, fout, sub>>
-  /\ UNCHANGED <<wph, event, suspExc, known>> /\ TimerUnch
+  /\ UNCHANGED <<wph, event, suspExc, known, noCb>> /\ TimerUnch
 
 TimerPut ==
   /\ tph.ph = "refresh"
   /\ tph' = [tph EXCEPT !.ph = "await"]
-  /\ UNCHANGED <<bst, wph, fout, sub, timers, event, suspExc, known>> /\ TimerUnch
+  /\ UNCHANGED <<bst, wph, fout, sub, timers, event, suspExc, known, noCb>> /\ TimerUnch
 
 TimerRefreshed(ok) ==
   /\ tph.ph = "await" /\ (ok \/ cf.tfail)
-  /\ tph' = [ph |-> "idle", i |-> 0]
   /\ LET i == tph.i IN
      IF ok
-       THEN \* submit_task: a new future on the pool (refused once the pool was shut down: the timer thread dies, nothing happens)
+       THEN \* submit_task: a new future on the pool (refused once the pool was shut down: the timer thread dies, nothing happens);
+            \* the done-callback is attached in a separate step (TimerAddCb)
             IF mpc \in {"Submit", "Wait", "Cancel"}
               THEN /\ bst' = [bst EXCEPT ![i] = "RUNNING"] /\ wph' = [wph EXCEPT ![i] = "queued"]
                    /\ (IF ResetFirst THEN UNCHANGED <<fout, sub>> ELSE ResetBranch(i, "PENDING"))
+                   /\ tph' = [ph |-> "addcb", i |-> i] /\ noCb' = noCb \cup {i}
                    /\ UNCHANGED <<event, suspExc, known>>
-              ELSE UNCHANGED <<bst, wph, fout, sub, event, suspExc, known>>
-       ELSE /\ UNCHANGED <<bst, wph, fout, sub>>
+              ELSE tph' = [ph |-> "idle", i |-> 0] /\ UNCHANGED <<bst, wph, fout, sub, event, suspExc, known, noCb>>
+       ELSE /\ UNCHANGED <<bst, wph, fout, sub, noCb>> /\ tph' = [ph |-> "idle", i |-> 0]
             /\ IF FixBteBranch
                  THEN event' = TRUE /\ suspExc' = (IF event THEN suspExc ELSE "fatal") /\ UNCHANGED known
                  ELSE known' = known \cup {"bte-in-branch"} /\ UNCHANGED <<event, suspExc>>
   /\ UNCHANGED timers /\ TimerUnch
 
+\* future.add_done_callback(): if the resubmitted body has already finished, the callback runs inline in the timer thread
+TimerAddCb ==
+  /\ tph.ph = "addcb"
+  /\ noCb' = noCb \ {tph.i}
+  /\ tph' = (IF wph[tph.i] = "done" THEN [tph EXCEPT !.ph = "inline"] ELSE [ph |-> "idle", i |-> 0])
+  /\ UNCHANGED <<bst, wph, fout, sub, timers, event, suspExc, known>> /\ TimerUnch
+
+\* the inline callback is over (its CbWrite / CbDecide / CbScan / CbSchedule steps are those of the branch)
+TimerInlineDone ==
+  /\ tph.ph = "inline" /\ wph[tph.i] \notin {"done", "cbw", "cbd", "scan", "sched"}
+  /\ tph' = [ph |-> "idle", i |-> 0]
+  /\ UNCHANGED <<bst, wph, fout, sub, timers, event, suspExc, known, noCb>> /\ TimerUnch
+
 H3 == UNCHANGED <<snap, suspSnap, resub>>
 H4 == UNCHANGED <<chk, chkLate>>
 \* (the scan reads one status per step: a scan that began before the timer thread popped a branch can finish on stale reads and
 \*  decide to suspend although that branch is being resumed - named "stale": needs a done-callback stalled for the whole wait)
-H5 == /\ UNCHANGED tph
+H5 == /\ UNCHANGED <<tph, noCb>>
       /\ tphAtSusp' = (IF suspExc' # suspExc /\ suspExc' \in {"timed", "indef"}
                          THEN (IF \E j \in stale : wph[j] = "scan" /\ wph'[j] # "scan" THEN "stale" ELSE tph.ph)
                          ELSE tphAtSusp)
@@ -451,14 +486,16 @@ WorkerStep(i) ==
   \/ (BodyStep(i) /\ H3 /\ H5)
   \/ (CbWrite(i) /\ snap' = [snap EXCEPT ![i] = {j \in Br : j # i /\ wph[j] = "run"}] /\ UNCHANGED <<suspSnap, resub>> /\ H4 /\ H5)
   \/ (CbCount(i) /\ H3 /\ H4 /\ H5)
+  \/ (CbSchedule(i) /\ H3 /\ H4 /\ H5)
   \/ (CbDecide(i) /\ H3 /\ H4 /\ H5)
   \/ (CbScan(i) /\ suspSnap' = (IF suspExc' # suspExc THEN snap[i] ELSE suspSnap) /\ UNCHANGED <<snap, resub>> /\ H4 /\ H5)
 TimerPopStep(i) == /\ TimerPop(i) /\ resub' = resub \cup {i} /\ UNCHANGED <<snap, suspSnap, tphAtSusp>> /\ H4
                    /\ stale' = stale \cup {j \in Br : wph[j] = "scan"} /\ UNCHANGED badSusp
-TimerThreadStep == (TimerPut \/ TimerRefreshed(TRUE) \/ TimerRefreshed(FALSE)) /\ H3 /\ H4 /\ UNCHANGED <<tphAtSusp, stale, badSusp>>
+TimerThreadStep == (TimerPut \/ TimerRefreshed(TRUE) \/ TimerRefreshed(FALSE) \/ TimerAddCb \/ TimerInlineDone)
+                   /\ H3 /\ H4 /\ UNCHANGED <<tphAtSusp, stale, badSusp>>
 TimerStep(i) == TimerPopStep(i) \/ TimerThreadStep
 
-Quiet == /\ mpc = "Returned" \/ (mpc = "Wait" /\ ~event)
+Quiet == /\ ~ENABLED MainStep        \* returned, waiting for the completion event, or blocked on the scheduler lock in shutdown()
          /\ \A i \in Br : ~ENABLED WorkerStep(i)
          /\ \A i \in Br : ~ENABLED TimerStep(i)
 
@@ -533,8 +570,9 @@ SuspendSound == result = "suspended" => \A j \in suspSnap : wph[j] # "run" \/ j 
 SuspendNobodyRunning == result = "suspended" => \A i \in Br : wph[i] # "run"
 \* ... and never while the timer thread is in the middle of resuming a branch whose timer has expired: that branch is neither
 \* parked on anything registered with the backend nor running yet (holds because the branch is PENDING during the refresh)
-SuspendNotWhileResuming == tphAtSusp \in {"none", "idle", "stale"}
-SuspendNotWhileResumingStrict == tphAtSusp \in {"none", "idle"}
+\* ("inline": the timer thread is running the done-callback of a resubmitted branch that has already parked again - nobody is being resumed)
+SuspendNotWhileResuming == tphAtSusp \in {"none", "idle", "stale", "inline"}
+SuspendNotWhileResumingStrict == tphAtSusp \in {"none", "idle", "inline"}
 
 \* C06/C07/C09: the main thread never waits forever (safety form: when nothing can move any more it has returned)
 NoHang == Quiet => (mpc = "Returned" \/ "bte-in-branch" \in known \/ "empty-input" \in known)
